@@ -9,7 +9,7 @@ from . import pcommon as pc
 def run(tier):
     ck = C.Check("C02", tier)
     failed = ck.proofs()
-    n_g, n_r = (45, 10) if tier == "quick" else (2500, 40)
+    n_g, n_r = (45, 10) if tier == "quick" else (700, 30)
     res = P.run_family(ck, n_g, n_r, p_err=0.0, want_hist=True)
     ties = pc.tie_violations(ck, res, want_kinds=("parse",))
     stats = {"grammars": len(res), "lr1": 0, "verdicts": 0, "accepted": 0, "rejected": 0, "max_len": 0, "fuel_or_panic": 0}
@@ -28,7 +28,7 @@ def run(tier):
         heads = {p[0] for p in r["g"]["syn"]}
         recursive = any(any(k == 0 for k, nm in b) for _, b, _, _ in r["g"]["syn"])
         for c in r["cases"]:
-            if c["kind"] != "parse":
+            if c["kind"] != "parse" or c["earley"] is None:
                 continue
             v = pc.verdict(c["impl"])
             stats["verdicts"] += 1
@@ -49,7 +49,7 @@ def run(tier):
     for r in res:
         if not pc.is_lr1(r) or r["g"]["err"]:
             continue
-        verdict_of = {tuple(c["w"]): c["earley"].startswith("yes") for c in r["cases"] if c["kind"] == "parse"}
+        verdict_of = {tuple(c["w"]): c["earley"].startswith("yes") for c in r["cases"] if c["kind"] == "parse" and c["earley"] is not None}
         for h in r["hists"]:
             for w, f, part in zip(h["hist"], h["fails"], h["impl"].split(" || ")):
                 if f != 0 or tuple(w) not in verdict_of:
